@@ -53,9 +53,12 @@ def main():
             CHECKS.setdefault(f.split(".")[0], frag)
     checks = []
     na = []
+    # claimed.txt: the properties whose check the coordinator has seen pass on the unchanged tree
+    with open(os.path.join(VERIF, "harness", "claimed.txt")) as fh:
+        claimed = set(fh.read().split())
     for pid in ALL:
         c = CHECKS.get(pid)
-        if c is None:
+        if c is None or pid not in claimed or c.get("text", "placeholder") == "placeholder":
             na.append({"property_id": pid, "reason": NOT_YET})
             continue
         checks.append({
